@@ -1,4 +1,5 @@
 import TaskModel.Quote.QuoteLemmas
+import TaskModel.Quote.ArgsLemmas
 import TaskModel.Quote.Args
 import TaskModel.Quote.Init
 import TaskModel.Quote.Template
@@ -21,8 +22,6 @@ Property theorems only; helper lemmas live in `TaskModel.Quote.*Lemmas`.
 -/
 namespace Props.C19
 open TaskModel.Quote
-
-def NulFree (s : Bytes) : Prop := ∀ b ∈ s, b ≠ 0
 
 /-! ## Quoting round trip -/
 
@@ -51,25 +50,19 @@ theorem C19_shellQuote_embedded (v rest : Bytes) (h : NulFree v) (hr : rest ≠ 
   | none => simp [pushAll_none]
   | some ws => simp [pushAll_some]
 
-theorem joinQuoted_go (args : List Bytes) (h : ∀ a ∈ args, NulFree a) (hne : args ≠ []) :
-    ∃ line, joinQuoted args = .ok line ∧ line ≠ [] ∧ ∀ st, go (.top st) line = some args := by
-  induction args with
-  | nil => exact absurd rfl hne
-  | cons a rest ih =>
-    obtain ⟨q, hq, hqne, hgo⟩ := go_quote a (h a (by simp))
-    cases rest with
-    | nil =>
-      refine ⟨q, by simp [joinQuoted, hq], hqne, fun st => ?_⟩
-      have := hgo st []
-      rw [List.append_nil] at this
-      rw [this, go.eq_def]
-      simp [pushAll_some]
-    | cons b rest' =>
-      obtain ⟨l, hl, hlne, hlgo⟩ := ih (fun x hx => h x (by simp [hx])) (by simp)
-      refine ⟨q ++ 32 :: l, ?_, by simp, fun st => ?_⟩
-      · simp [joinQuoted, hq, hl, bind, Except.bind, pure, Except.pure]
-      · rw [hgo st (32 :: l), go.eq_def]
-        simp [hlgo false, pushAll_some]
+/-- The command `REC {{shellQuote .X}} {{q .X}}` of the end-to-end check: two words, both
+the value. -/
+theorem C19_shellQuote_twice (v : Bytes) (h : NulFree v) :
+    ∃ q, quote v = .ok q ∧ words (q ++ 32 :: q) = some [v, v] := by
+  obtain ⟨q, hq, hw⟩ := C19_shellQuote v h
+  have hne : q ≠ [] := by
+    obtain ⟨q', hq', hne', _⟩ := go_quote v h
+    rw [hq] at hq'; cases hq'; exact hne'
+  obtain ⟨q2, hq2, hw2⟩ := C19_shellQuote_embedded v q h hne
+  rw [hq] at hq2; cases hq2
+  exact ⟨q, hq, by rw [hw2, hw]; rfl⟩
+
+example : words ([39, 97, 32, 98, 39] ++ 32 :: [39, 97, 32, 98, 39]) = some [[97, 32, 98], [97, 32, 98]] := by decide
 
 /-- **The core of C19.**  For every argument vector of NUL-free byte strings, quoting each
 argument the way `args.Get` does and joining with single spaces gives a command-line
@@ -83,24 +76,6 @@ theorem C19_roundtrip (args : List Bytes) (h : ∀ a ∈ args, NulFree a) :
     obtain ⟨line, hl, hne, hgo⟩ := joinQuoted_go (a :: rest) h (by simp)
     exact ⟨line, hl, by rw [words, if_neg hne, hgo false]⟩
 
-theorem mapM_quote (args : List Bytes) (h : ∀ a ∈ args, NulFree a) :
-    ∃ qs, args.mapM quote = .ok qs ∧ qs.length = args.length ∧ joinQuoted args = .ok (joinSp qs) := by
-  induction args with
-  | nil => exact ⟨[], rfl, rfl, rfl⟩
-  | cons a rest ih =>
-    obtain ⟨q, hq, _, _⟩ := go_quote a (h a (by simp))
-    obtain ⟨qs, hqs, hlen, hj⟩ := ih (fun x hx => h x (by simp [hx]))
-    refine ⟨q :: qs, by simp [List.mapM_cons, hq, hqs, bind, Except.bind, pure, Except.pure], by simp [hlen], ?_⟩
-    cases rest with
-    | nil =>
-      cases qs with
-      | nil => simp [joinQuoted, joinSp, hq]
-      | cons _ _ => simp at hlen
-    | cons b rest' =>
-      cases qs with
-      | nil => simp at hlen
-      | cons q' qs' => simp [joinQuoted, joinSp, hq, hj, bind, Except.bind, pure, Except.pure]
-
 /-- `CLI_ARGS` as `cmd/task` builds it (arguments after `--`, `args.Get` + join): the
 shell splits it into exactly the arguments given after `--`. -/
 theorem C19_cli_args (argv : List Bytes) (d : Nat) (h : ∀ a ∈ argv.drop d, NulFree a) :
@@ -111,17 +86,9 @@ theorem C19_cli_args (argv : List Bytes) (d : Nat) (h : ∀ a ∈ argv.drop d, N
   cases hl
   exact ⟨joinSp qs, by simp [cliArgs, argsGet, hqs], hw⟩
 
-/-- `joinSp` is `strings.Join(·, " ")`. -/
-theorem joinSp_eq_intercalate (qs : List Bytes) : joinSp qs = [32].intercalate qs := by
-  induction qs with
-  | nil => rfl
-  | cons a rest ih =>
-    cases rest with
-    | nil => simp [joinSp, List.intercalate]
-    | cons b rest' =>
-      rw [joinSp, ih]
-      simp [List.intercalate, List.intersperse]
-      all_goals simp
+-- task Y=2 fwd -- 'a b' '' : CLI_ARGS is `'a b' ''`, read back as the two arguments
+example : cliArgs [[89, 61, 50], [102, 119, 100], [97, 32, 98], []] (some 2) = .ok [39, 97, 32, 98, 39, 32, 39, 39] := by decide
+example : words [39, 97, 32, 98, 39, 32, 39, 39] = some [[97, 32, 98], []] := by decide
 
 /-- The statement in the form of the task description:
 `words (intercalate " " (args.map quote)) = some args`. -/
@@ -199,34 +166,6 @@ theorem C19_splitVar (n v : Bytes) (h : ∀ b ∈ n, b ≠ 61) : splitVar (n ++ 
 
 example : splitVar [88, 61, 97, 61, 98, 61] = ([88], [97, 61, 98, 61]) := by decide   -- X=a=b=
 
-theorem lookup_setVar_same (k v : Bytes) (g : List (Bytes × Bytes)) : lookupVar k (setVar k v g) = some v := by
-  induction g with
-  | nil => simp [setVar, lookupVar]
-  | cons e g ih =>
-    obtain ⟨k', v'⟩ := e
-    by_cases hk : k' = k <;> simp [setVar, lookupVar, hk, ih]
-
-theorem lookup_setVar_other (k k' v : Bytes) (g : List (Bytes × Bytes)) (h : k' ≠ k) :
-    lookupVar k (setVar k' v g) = lookupVar k g := by
-  induction g with
-  | nil => simp [setVar, lookupVar, h]
-  | cons e g ih =>
-    obtain ⟨k'', v''⟩ := e
-    by_cases hk : k'' = k'
-    · subst hk; simp [setVar, lookupVar, h]
-    · by_cases hk2 : k'' = k
-      · subst hk2; simp [setVar, lookupVar, hk]
-      · simp [setVar, lookupVar, hk, hk2, ih]
-
-theorem lookup_foldl_other (k : Bytes) (as : List Bytes) (g : List (Bytes × Bytes))
-    (h : ∀ a ∈ as, (splitVar a).1 ≠ k) :
-    lookupVar k (as.foldl (fun g a => setVar (splitVar a).1 (splitVar a).2 g) g) = lookupVar k g := by
-  induction as generalizing g with
-  | nil => rfl
-  | cons a as ih =>
-    simp only [List.foldl_cons]
-    rw [ih _ (fun x hx => h x (by simp [hx])), lookup_setVar_other _ _ _ _ (h a (by simp))]
-
 /-- **The last assignment wins, verbatim**: if `NAME=value` is the last argument that
 assigns `NAME`, the global `NAME` is exactly `value` — wherever it stands among task names
 and other assignments, whatever bytes `value` contains. -/
@@ -240,6 +179,9 @@ theorem C19_parse_last (pre post : List Bytes) (n v : Bytes) (hn : ∀ b ∈ n, 
   · intro a ha
     simp only [List.mem_filter] at ha
     exact hpost a ha.1 ha.2
+
+-- t X=1 u X=a=b Y=2 : X is "a=b"
+example : lookupVar [88] (parse ([[116], [88, 61, 49], [117]] ++ ([88] ++ 61 :: [97, 61, 98]) :: [[89, 61, 50]])).2 = some [97, 61, 98] := by decide
 
 /-- Task calls are the arguments without `=`, in the order given. -/
 theorem C19_parse_calls (argv : List Bytes) :
